@@ -15,6 +15,7 @@ CHECKS = {}
 # extra build arguments per harness
 HARNESS_KW = {
     "h_arena": {"libs": ["-Wl,--wrap=mmap,--wrap=munmap,--wrap=mprotect,--wrap=madvise"]},
+    "h_lowlevel": {"libs": ["-Wl,--wrap=malloc,--wrap=mmap,--wrap=mprotect"]},
 }
 
 # monitor -> properties whose statement the monitor implements
@@ -268,6 +269,8 @@ def pool_suite(tier, cfgs, extra="", fams=("member",), need=()):
                     ("array", "fixed", "--fam compose --ns 16 --bs 112 --L 6 --B 2 --sizes 16 --tarrays 3x8,2x16 --tryrel 1", ("try_returned_null",)),
                     ("small", "fixed", "--fam compose --ns 1 --bs 304 --L 3 --B 2 --sizes 1 --bulk 254 --arena 4096 --snap 1 --tryrel 1", ("try_returned_null",)),
                 ]
+            if q and cfg != cfgs[0]:
+                shapes = shapes[::2] if fam == "member" else shapes[:1]
             for t, src, args, nd in shapes:
                 if "--arena" not in args:
                     args += " --arena 1024"
@@ -300,6 +303,8 @@ def coll_suite(tier, cfgs, extra="", fams=("member",), need=()):
                     ("node", "identity", "fixed", "--maxns 12 --bs 416 --sizes 8,12 --arrays 2x12 --L 3 --B 2", ("reserved_from_arena",)),
                     ("small", "log2", "constant", "--maxns 4 --bs 2000 --sizes 1,3,4 --L 4 --B 2 --arena 8192", ("reserved_from_arena",)),
                 ]
+            if q and cfg != cfgs[0]:
+                shapes = shapes[::2]
             for t, bk, src, args, nd in shapes:
                 if fam == "compose" and src != "fixed":
                     continue
@@ -331,6 +336,8 @@ def stack_suite(tier, cfgs, extra="", fams=("member",), need=()):
                     ("constant", "--bs 96 --reqs 24x32,8x8 --L 4 --B 3 --markers 2 --objhi 1", ("unwound_across_blocks",)),
                     ("fixed", "--bs 128 --reqs 13x1,8x16,3x64 --L 6 --B 2 --markers 2", ("alloc_oom",)),
                 ]
+            if q and cfg != cfgs[0]:
+                shapes = shapes[::2]
             for src, args, nd in shapes:
                 args = _shrink(args, extra, tier).replace("--twin 0", "--twin 0" if fam == "member" else "")
                 a = f"--src {src} {f} {args} --arena 1024 {extra}".strip()
@@ -346,6 +353,8 @@ def iter_suite(tier, cfgs, extra="", need=()):
     for cfg in cfgs:
         if q:
             combos = [(1, 37), (2, 64), (2, 65), (3, 100), (3, 101), (3, 104), (4, 99), (5, 128), (5, 131), (3, 1025)]
+            if cfg != cfgs[0]:
+                combos = combos[1::2]
         else:
             combos = [(n, bs) for n in (1, 2, 3, 4, 5) for bs in list(range(60, 60 + 4 * n + 3)) + [1025, 1024 + n + 1]]
         for n, bs in combos:
@@ -354,6 +363,19 @@ def iter_suite(tier, cfgs, extra="", need=()):
             reqs = f"{big}x1,8x8" + (",3x16" if n <= 3 else "")
             args = _shrink(f"--N {n} --bs {bs} --reqs {reqs} --L {3 if n <= 3 else 2} --arena 2048 --tries 1", extra, tier).replace(" --twin 0", "")
             out.append(J("h_iter", cfg, f"{args} {extra}".strip(), name=f"iter<{n}>/{bs}[{cfg}] {extra}".strip(), need=("alloc_oom",) + tuple(need), moves=_mv(extra)))
+    return out
+
+
+def static_suite(tier, cfgs, extra="", need=()):
+    out = []
+    q = tier == "quick"
+    for cfg in cfgs:
+        shapes = [("member", "--bs 100 --reqs 13x1,8x16,3x32 --L 6"), ("traits", "--bs 96 --reqs 24x8,5x1 --L 5")]
+        if not q:
+            shapes += [("member", "--bs 131 --reqs 40x1,8x16,1x64 --L 6"), ("traits", "--bs 64 --reqs 7x1,8x8 --L 6")]
+        for fam, args in shapes:
+            a = _shrink(f"{args} --fam {fam} --B 2 --arena 1024", extra, tier).replace(" --twin 0", "")
+            out.append(J("h_static", cfg, f"{a} {extra}".strip(), name=f"static[{cfg}] {fam} {args} {extra}".strip(), need=("alloc_oom",) + tuple(need), moves=_mv(extra)))
     return out
 
 
@@ -386,7 +408,7 @@ NOTE_BFS = ("explicit-state breadth-first search over operation histories of the
 def check_C01(prop, tier, only):
     c = cfgs_for(tier)
     jobs = (pool_suite(tier, c, extra="--tries 1", fams=("member", "traits")) + coll_suite(tier, c, extra="--tries 1", fams=("member",))
-            + stack_suite(tier, c, extra="--tries 1") + iter_suite(tier, c) + arena_suite(tier, c[:1]))
+            + stack_suite(tier, c, extra="--tries 1") + iter_suite(tier, c) + arena_suite(tier, c[:1]) + static_suite(tier, c))
     ej = [J("h_lowlevel", cfg, "--mode dfs", name=f"lowlevel-dfs[{cfg}]") for cfg in c]
     return run_explore_check(prop, tier, jobs, only, enum_jobs=ej, note=NOTE_BFS +
                              "low-level allocators (heap/malloc/new/virtual memory): all sequences up to depth 5/6 over 5 request shapes and releases (stateless DFS); "
@@ -400,9 +422,11 @@ def check_C03(prop, tier, only):
     x = "--tries 1 --faults 1"
     jobs = (pool_suite(tier, c, extra=x, fams=("member", "traits", "compose")) + coll_suite(tier, c, extra=x, fams=("member", "compose"))
             + stack_suite(tier, c, extra=x, fams=("member", "compose")) + iter_suite(tier, c, extra="--faults 0")
-            + arena_suite(tier, c[:1], extra="--faults 1"))
-    return run_explore_check(prop, tier, jobs, only, note=NOTE_BFS +
-                             "alphabet includes try_ variants, requests that exhaust fixed sources, an oversize request, and 'fail the next upstream call' "
+            + arena_suite(tier, c[:1], extra="--faults 1") + static_suite(tier, c))
+    ej = [J("h_lowlevel", cfg, "--mode fail", name=f"lowlevel-fail[{cfg}]") for cfg in c]
+    return run_explore_check(prop, tier, jobs, only, enum_jobs=ej, note=NOTE_BFS +
+                             "low-level allocators: malloc / operator new / mmap / mprotect made to fail during every request shape (must throw the out_of_memory family "
+                             "after the handler, never null); alphabet includes try_ variants, requests that exhaust fixed sources, an oversize request, and 'fail the next upstream call' "
                              "(deviation bound 1) at every reachable upstream call position; M-null/M-fail/M-try: throwing calls never return null, "
                              "exceptions are the upstream's or of the library's families with the handler called first, try_ never throws/grows; the "
                              "exploration continues after every failure so earlier allocations and later requests are checked by the C01 monitors")
@@ -454,7 +478,7 @@ def check_C12(prop, tier, only):
     c = cfgs_for(tier)
     x = "--moves 2"
     jobs = (pool_suite(tier, c, extra=x, fams=("member",)) + coll_suite(tier, c, extra=x) + stack_suite(tier, c, extra=x)
-            + iter_suite(tier, c[:2], extra=x) + arena_suite(tier, c, extra=x))
+            + iter_suite(tier, c[:2], extra=x) + arena_suite(tier, c, extra=x) + static_suite(tier, c[:1], extra=x))
     return run_explore_check(prop, tier, jobs, only, note=NOTE_BFS +
                              "two object slots; alphabet adds construct / move-construct / move-assign (onto empty, non-empty and moved-from targets) / swap / "
                              "destroy (also of moved-from objects) at every reachable state, up to 2 moves per history; all memory-safety and upstream monitors "
@@ -519,7 +543,7 @@ def check_C02(prop, tier, only):
     import grids
     c = cfgs_for(tier, thorough=("rel", "rwd", "dbg", "dbg16"))
     jobs = (pool_suite(tier, c, extra="--tries 1", fams=("member", "traits")) + coll_suite(tier, c, fams=("member", "traits"))
-            + stack_suite(tier, c, extra="--tries 1") + iter_suite(tier, c[:2]))
+            + stack_suite(tier, c, extra="--tries 1") + iter_suite(tier, c[:2]) + static_suite(tier, c))
     return run_explore_check(prop, tier, jobs, only, enum_jobs=grids.jobs_sweep(tier), note=NOTE_BFS +
                              "M-align / M-inside / M-disjoint on every transition (the harness writes all count*size bytes of every returned range and re-reads every live "
                              "range after every operation); plus the exhaustive single-step request sweep over sizes, counts, alignments and three canonical positions")
